@@ -141,6 +141,17 @@ Theorem C18_generated_history_independence :
 Proof. exact @gen_history_independence. Qed.
 Print Assumptions C18_generated_history_independence.
 
+(** the set-up the model assumes (all work buffers allocated with [nmax] cells and zeroed completely: [fresh];
+    forward plan bp -> ff, inverse plan wl -> wp, both of length nmax) is what the constructor, _initWakeLossFFT
+    and fft::fft_alloc_real/complex say (generated) *)
+Theorem C18_generated_setup_is_model :
+  forall N : Z,
+    gen_alloc_real_zeroed N = N /\ gen_alloc_complex_zeroed N = 2 * N /\
+    gen_buffers N = [(Bbp, false, N); (Bff, true, N); (Bwl, true, N); (Bwp, false, N)] /\
+    gen_plan_fwd N = (N, Bbp, Bff) /\ gen_plan_inv N = (N, Bwl, Bwp).
+Proof. exact gen_setup_is_model. Qed.
+Print Assumptions C18_generated_setup_is_model.
+
 (** (b) Extended operation set: getters anywhere in the history, and TWO field objects in one process
     (src/main.cpp: the radiation field and the wake field, different transform lengths, same PhaseSpace).
     Model/EField2.v: every object owns its buffers and plans, FFTWWrapper.cpp has no static buffer; a
